@@ -69,7 +69,14 @@ def execute(mod, case, log_on=False):
             rw = getattr(mod, "reset_world", None)
             if rw:
                 rw()
+            # id() behind a seam (after the modules were re-executed): the mode is part of the case
+            from . import simid
+            id_mode = (case.get("config") or {}).get("id_mode") or ("unique", "reuse", "reuse")[case.get("sched_seed", 0) % 3]
+            sid = simid.install(id_mode)
             stats = mod.run_case(case, sched)
+            if sid.calls:
+                sched.count("id_calls_by_persim", sid.calls)
+                sched.count("id_values_reused", sid.reused)
             return {"status": "ok", "stats": stats or {}, "sched": sched}
         finally:
             if in_main:
@@ -208,7 +215,9 @@ def chunk_worker(pid, tier, seed, lo, hi, deadline, repo):
                 res2 = execute(mod, case2)
                 if res2["status"] != "violation" or \
                         res2["violation"]["signature"] != res["violation"]["signature"]:
-                    harness.append("nondeterministic: case idx %d gave %s then %s" % (
+                    # the same case, same tape, same process gave another outcome: either my harness is not
+                    # deterministic or the code under test consults something no seam owns (e.g. id()).
+                    harness.append("UNSTABLE: case idx %d gave %s then %s" % (
                         idx, res["violation"], res2.get("violation") or res2["status"]))
                 else:
                     case2["violation"] = res["violation"]
@@ -427,9 +436,13 @@ def run_property(pid, tier, seed, jobs=None, budget_s=None, runs=None, out=sys.s
             print("  signature=%s" % "/".join(sig), file=out)
             print("  detail=%s" % v["detail"][:600], file=out)
     if harness:
-        exit_code = 2
+        # A replay-verified, unlisted violation decides (exit 1) even if other cases were unstable; without one,
+        # instability or any exception of my own code is a harness error (exit 2), never a pass.
+        if exit_code != 1:
+            exit_code = 2
         for h in harness[:10]:
-            print("HARNESS-ERROR property=%s %s" % (pid, h), file=out)
+            print("%s property=%s %s" % ("NOTE" if exit_code == 1 and h.startswith("UNSTABLE") else "HARNESS-ERROR",
+                                         pid, h), file=out)
 
     write_evidence(mod, tier, seed, agg, extra_info, wall, reported, jobs)
     print("%s %s: cases=%d evals=%d decisions=%d distinct_nontrivial=%d violations=%d "
